@@ -282,3 +282,10 @@ def noncontiguous(x):
     big = torch.zeros(tuple(x.shape[:-1]) + (2 * x.shape[-1],), dtype=x.dtype)
     big[..., ::2] = x
     return big[..., ::2]
+
+
+def transposed_view(x):
+    """A tensor equal to x, dense but non-contiguous: the view of a buffer that stores the last dimension first (x.t() of an (n, B) buffer)."""
+    if x.dim() < 2:
+        return x
+    return x.movedim(-1, 0).contiguous().movedim(0, -1)
